@@ -862,7 +862,7 @@ func c29RunPlain(h *c29Hist, tg c29Target, scripts [][]c29Step, rng *rand.Rand) 
 	if !barrier {
 		close(h.startCh)
 	}
-	var wg sync.WaitGroup
+	var wg verifrt.WG
 	for i := range scripts {
 		wg.Add(1)
 		go func() {
